@@ -308,8 +308,14 @@ JCTX = {"a": 2, "b": 0, "x": "xx", "items": ["p", "q"], "flag": True, "name": "n
 
 class JinjaGen:
     def __init__(self, rng, profile="realistic", undefined=False, ws_control=True, loops=True, macros=True,
-                 sets=True, raw=True, comments=True):
+                 sets=True, raw=True, comments=True, control_bias=0.0, for_else=True):
         self.rng = rng
+        # for_else: True = for/else on any iterable; "empty" = only on empty iterables; False = never
+        # (a for/else over a non-empty iterable makes the templater skip the whole file)
+        self.for_else = for_else
+        # control_bias (C07): probability that an element is forced to be an if/for structure (default 0.0 draws
+        # nothing extra from the rng, so the stream of every existing caller is unchanged)
+        self.control_bias = control_bias
         self.profile = profile
         self.undefined = undefined
         self.ws_control = ws_control
@@ -354,6 +360,8 @@ class JinjaGen:
         out = []
         for _ in range(rng.randint(1, 4)):
             k = rng.random()
+            if self.control_bias and depth <= 2 and rng.random() < self.control_bias:
+                k = 0.5 + 0.28 * rng.random()
             if k < 0.35 or depth > 2:
                 out.append(self.lit())
             elif k < 0.5:
@@ -369,9 +377,10 @@ class JinjaGen:
                 s += self.tag("endif")
                 out.append(s)
             elif k < 0.78 and self.loops:
-                s = self.tag("for i in " + rng.choice(["items", "[1,2]", "range(2)", "[]", "range(n)", "empty"]))
+                it = rng.choice(["items", "[1,2]", "range(2)", "[]", "range(n)", "empty"])
+                s = self.tag("for i in " + it)
                 s += self.block(depth + 1)
-                if rng.random() < 0.2:
+                if rng.random() < 0.2 and (self.for_else is True or (self.for_else == "empty" and it in ("[]", "empty"))):
                     s += self.tag("else") + self.block(depth + 1)
                 s += self.tag("endfor")
                 out.append(s)
@@ -462,3 +471,204 @@ def placeholder_case(draw, styles=None):
         keep = draw(st.sets(st.sampled_from(sorted(ctx)), max_size=len(ctx)))
         ctx = {k: v for k, v in ctx.items() if k in keep}
     return {"dialect": "ansi", "templater": "placeholder", "sql": "".join(parts), "param_style": style, "context": ctx}
+
+
+# --------------------------------------------------------------------------- templates with fixable literals (C10, C30)
+
+FIX_RULE_SETS = ["all", "all", "all", "core", "layout", "capitalisation", "aliasing", "ambiguous", "convention",
+                 "references", "structure", "jinja", "layout,jinja", "LT01", "LT02", "LT12,LT13"]
+
+_SQL_KW = re.compile(r"\b(select|from|where|and|or|as|with|union all|union|join|left join|on|group by|order by|case|when|"
+                     r"then|else|end|is|not|null|in|distinct|sum|count|coalesce)\b", re.I)
+
+
+def sql_noise(rng, s, strength=0.5):
+    """Layout / capitalisation noise on a literal SQL fragment (never touches template code)."""
+    def kw(m):
+        r = rng.random()
+        w = m.group(0)
+        if r < strength * 0.5:
+            return w.upper()
+        if r < strength * 0.7:
+            return w.capitalize()
+        return w
+    s = _SQL_KW.sub(kw, s)
+    out = []
+    for ch in s:
+        r = rng.random()
+        if ch == " " and r < strength * 0.25:
+            out.append(rng.choice(["  ", "   ", " \t", "    "]) if r < strength * 0.2 else "  ")
+        elif ch == "," and r < strength * 0.5:
+            out.append(rng.choice([" ,", ", ", " , ", ","]))
+        elif ch == "=" and r < strength * 0.6 and out and out[-1][-1:] in (" ", "x", "y", "b", "a"):
+            out.append(rng.choice(["=", " =", "= ", "  =  "]))
+        elif ch == "\n" and r < strength * 0.3:
+            out.append(rng.choice([" \n", "\n\n", "\n ", "\n   ", "\n\t", "  \n"]))
+        else:
+            out.append(ch)
+    return "".join(out)
+
+
+class FixableJinjaGen(JinjaGen):
+    """JinjaGen whose literals violate layout / capitalisation / convention rules."""
+
+    FIXABLE = ["select  a,b from  t\n", "SELECT a , b\n", " from T\n", "WHERE  x=1\n", "where y = 2  \n", "a as A,\n",
+               "  b  AS  c\n", "Select\n  a\n ,b\n", "FROM t AS T1\n", " and  z<>3\n", " AND z != 3\n", "col+1 ",
+               "sum( a ) ", "COUNT(*)\n", " , ", "select a from t  where a in (1,2 ,3)\n", "\tfrom t\n",
+               "      a,\n", "group by a\n", "ORDER BY  1\n", "union\nselect 1\n", "coalesce(a,0) as q ,\n",
+               "case when a=1 then 2 else 3 end\n", "select 1;\n", "   "]
+
+    def lit(self):
+        if self.rng.random() < 0.6:
+            return self.rng.choice(self.FIXABLE)
+        return JinjaGen.lit(self)
+
+
+def _dbt_model(rng, g):
+    """Hand-shaped dbt-like models; `g` supplies tag delimiters/padding, noise is applied to the literals only."""
+    T_, E_ = (lambda b: g.tag(b, stmt=True)), (lambda b: g.tag(b, stmt=False))
+    nz = lambda s: sql_noise(rng, s, rng.choice([0.2, 0.5, 0.9]))
+    cmt = lambda: rng.choice(["", "", "{# note #}\n", "{#- note -#}", "  {# indented note #}\n", "-- sql comment\n"])
+    shapes = []
+    # column list built by a loop
+    shapes.append(lambda: (
+        E_("config(materialized='table')") + "\n" + cmt() + nz("with src as (\n    select * from ") + E_("ref('orders')")
+        + nz("\n),\n\nfinal as (\n    select\n") + "        " + T_("for c in col_list") + "\n        " + E_("c")
+        + T_("if not loop.last") + "," + T_("endif") + "\n        " + T_("endfor") + nz("\n    from src\n") + "    "
+        + T_("if flag") + nz("\n    where a > 1 and b = 2\n") + "    " + T_("endif") + nz("\n)\n\nselect * from final\n")))
+    # if / elif / else choosing the source table, expression in the select list
+    shapes.append(lambda: (
+        cmt() + T_("set threshold = 10") + "\n" + nz("select\n    a,\n    b + ") + E_("a") + nz(" as total,\n    ")
+        + E_("name") + nz(",\n    coalesce(c, 0) as c\nfrom ") + T_("if a > 1") + " t1 " + T_("elif b") + " t2 " + T_("else")
+        + " t3 " + T_("endif") + nz("\nwhere d >= ") + E_("n") + nz("\n  and e <> 5\n")))
+    # union built by a loop
+    shapes.append(lambda: (
+        T_("for t in items") + "\n" + nz("select a, b, '") + E_("t") + nz("' as src from ") + E_("t") + "\n"
+        + T_("if not loop.last") + nz("\nunion all\n") + T_("endif") + "\n" + T_("endfor") + "\n"))
+    # macro + call + incremental filter
+    shapes.append(lambda: (
+        T_("macro cents(col)") + nz("round(") + E_("col") + nz(" / 100, 2)") + T_("endmacro") + "\n" + cmt()
+        + nz("select\n    id,\n    ") + E_("cents('amount')") + nz(" as amount,\n    created_at\nfrom ")
+        + E_("source('raw', 'payments')") + "\n" + T_("if is_incremental()") + nz("\nwhere created_at > (select max(created_at) from ")
+        + E_("this") + ")\n" + T_("endif") + "\n"))
+    # tags at the very start / end of lines and of the file, whitespace control
+    shapes.append(lambda: (
+        rng.choice(["", " ", "  ", "\n", "    "]) + E_(rng.choice(["a", "name", "x"])) + nz(" as first_col,\n")
+        + rng.choice(["", "  ", "\t"]) + E_("b") + rng.choice(["", " ", "  "]) + nz(",c from t where x = ") + E_("n")
+        + rng.choice(["", " ", "\n", "  \n\n"])))
+    # comments between columns, set block
+    shapes.append(lambda: (
+        T_("set cols") + "a, b" + T_("endset") + "\n" + nz("select ") + E_("cols") + nz(",\n    ") + "{# first #}"
+        + nz("\n    c,  ") + "{#- second -#}" + nz("\n    d\nfrom t\n") + cmt()))
+    return rng.choice(shapes)()
+
+
+def _struct_model(rng, g):
+    """Grammar-directed template: SELECT items FROM source [WHERE conds], with tags wrapped around whole
+    items / conditions so that most renderings parse."""
+    T_, E_ = (lambda b: g.tag(b, stmt=True)), (lambda b: g.tag(b, stmt=False))
+    nz = lambda s: sql_noise(rng, s, rng.choice([0.2, 0.5, 0.9]))
+    nl = lambda: rng.choice(["\n    ", "\n    ", "\n", " ", "\n  ", "\n        "])
+    cmt = lambda: rng.choice(["", "", "", "{# c #}", "{#- c -#}", " {# c #}", "-- c"])
+    items = []
+    for i in range(rng.randint(1, 4)):
+        r = rng.random()
+        col = rng.choice(["a", "b", "t.c", "a + 1", "coalesce(a, 0)", "sum(b)", "case when a = 1 then 2 else 3 end", "'s'"])
+        alias = rng.choice(["", "", " as c%d" % i, " AS C%d" % i, " c%d" % i])
+        if r < 0.35:
+            items.append(nz(col + alias) + ",")
+        elif r < 0.55:
+            items.append(E_(rng.choice(["name", "x", "'col_' ~ n", "a", "col_list[0]"])) + nz(alias) + ",")
+        elif r < 0.7:
+            items.append(T_("if " + rng.choice(["flag", "a > 1", "false", "not flag"])) + nl() + nz(col + alias) + ","
+                         + (nl() + T_("else") + nl() + nz("b" + alias) + "," if rng.random() < 0.4 else "")
+                         + nl() + T_("endif"))
+        elif r < 0.85:
+            items.append(T_("for i in " + rng.choice(["[1,2]", "range(2)", "items", "empty"])) + nl()
+                         + rng.choice(["col_", "a + ", "v"]) + E_("i" if rng.random() < 0.8 else "loop.index") + rng.choice(["", " as k", " AS K"])
+                         + "," + nl() + T_("endfor"))
+        else:
+            items.append(T_("set v = " + rng.choice(["1", '"x"', "a"])) + nl() + nz(col + alias) + ",")
+        if rng.random() < 0.15:
+            items.append(cmt())
+    items.append(nz(rng.choice(["z", "1 as one", "count(*) as n", "b"])))
+    src = rng.choice([
+        lambda: nz("t"), lambda: nz("t as t"), lambda: E_("ref('orders')"), lambda: E_("source('raw', 'x')") + nz(" as s"),
+        lambda: T_("if flag") + " t1 " + T_("else") + " t2 " + T_("endif"), lambda: nz("db.") + E_("name"),
+    ])()
+    s = (cmt() + ("\n" if rng.random() < 0.5 else "") + nz("select") + nl() + nl().join(items) + nl().lstrip(" ") + nz("from ") + src)
+    if rng.random() < 0.7:
+        conds = []
+        for j in range(rng.randint(1, 3)):
+            c = rng.choice(["x = 1", "y <> 2", "z != 3", "a is null", "b in (1, 2)", "c >= "]) 
+            if c.endswith("= "):
+                c = nz(c) + E_(rng.choice(["n", "a", "b"]))
+            else:
+                c = nz(c)
+            if j and rng.random() < 0.4:
+                conds.append(T_("if " + rng.choice(["flag", "a > 1", "false"])) + nl() + nz("and ") + c + nl() + T_("endif"))
+            elif j:
+                conds.append(nz("and ") + c)
+            else:
+                conds.append(c)
+        s += nl() + nz("where ") + nl().join(conds)
+    if rng.random() < 0.3:
+        tail = rng.choice(["group by 1", "order by 1", "limit "])
+        s += nl() + nz(tail).rstrip(" ") + (" " + E_("n") if tail == "limit " else "")
+    return s + rng.choice(["\n", "", "\n\n", ";\n", " \n", "\n" + cmt()])
+
+
+def _param_model(rng, params):
+    """SELECT ... FROM ... WHERE ... with parameters (python fields / placeholder params) in value, column and
+    table position; noise on the literal parts only."""
+    nz = lambda s: sql_noise(rng, s, rng.choice([0.2, 0.5, 0.9]))
+    P = lambda: rng.choice(params)
+    nl = lambda: rng.choice(["\n    ", "\n", " ", "  ", "\n  "])
+    items = [rng.choice([nz("a"), nz("b as c1"), nz("sum(c) AS C2"), P(), P() + nz(" as p"), nz("a + ") + P(), nz("coalesce(a, ") + P() + ")"])
+             for _ in range(rng.randint(1, 4))]
+    s = rng.choice(["", "", " ", "\n", "  "]) + nz("select") + nl() + (nz(",") + nl()).join(items) + nl() + nz("from ") + rng.choice([nz("tbl"), nz("tbl as t"), P(), nz("db.") + P()])
+    if rng.random() < 0.8:
+        conds = [rng.choice([nz("x = ") + P(), nz("y <> ") + P(), P() + nz(" != 3"), nz("z in (") + P() + nz(", ") + P() + ")",
+                             nz("a is null"), nz("b=") + P(), nz("c >= 1")]) for _ in range(rng.randint(1, 3))]
+        s += nl() + nz("where ") + (nl() + nz("and ")).join(conds)
+    if rng.random() < 0.2:
+        s += nl() + nz("limit ") + P()
+    return s + rng.choice(["\n", "", "\n\n", ";\n", " \n", "  "])
+
+
+_FIX_PIECES = ["SELECT  ", "select ", " from ", " FROM  ", "\n", "   ", "a", ",b", " , ", " WHERE x=1", " where  y = ",
+               " and z<>", "  ", "\t", "tbl", " AS  t", "sum( a )", " ;", "\n\n\n", "-- c\n", "'s'", "(", ")", " + ", "1"]
+
+
+@st.composite
+def template_fix_case(draw, templaters=("jinja", "jinja", "jinja", "python", "placeholder"), rule_sets=None):
+    """Templated files whose literal parts have fixable violations, plus a rule selection (`rules`)."""
+    rng = draw(st.randoms(use_true_random=False))
+    templater = draw(st.sampled_from(list(templaters)))
+    rules = draw(st.sampled_from(list(rule_sets or FIX_RULE_SETS)))
+    if templater == "jinja":
+        g = FixableJinjaGen(rng, profile="realistic")
+        kind = draw(st.sampled_from(["gen", "struct", "struct", "dbt"]))
+        sql = g.block() if kind == "gen" else (_dbt_model(rng, g) if kind == "dbt" else _struct_model(rng, g))
+        ctx = dict(JCTX)
+        return {"dialect": "ansi", "templater": "jinja", "sql": sql, "context": ctx, "rules": rules, "shape": kind}
+    if templater == "python":
+        fields = ["{{", "}}", "{a}", "{b}", "{tbl}", "{a!r}", "{b:>4}", "{w!s}", "{foo.bar}", "{b:04d}"]
+        if draw(st.integers(0, 3)):
+            return {"dialect": "ansi", "templater": "python", "sql": _param_model(rng, fields[2:] + ["{{x}}"]),
+                    "context": dict(PYCTX), "dotted": dict(PYDOT), "rules": rules, "shape": "struct"}
+        parts = [draw(st.sampled_from(fields)) if draw(st.integers(0, 2)) == 0 else draw(st.sampled_from(_FIX_PIECES))
+                 for _ in range(draw(st.integers(2, 10)))]
+        return {"dialect": "ansi", "templater": "python", "sql": "".join(parts), "context": dict(PYCTX),
+                "dotted": dict(PYDOT), "rules": rules, "shape": "pieces"}
+    style = draw(st.sampled_from(sorted(PH_EXAMPLES)))
+    ctx = {}
+    if draw(st.booleans()):
+        ctx = {"name": "nval", "a": "aval", "b1": 5, "1": "one", "2": "two", "10": "ten", "flyway:database": "db"}
+    if draw(st.integers(0, 3)):
+        return {"dialect": "ansi", "templater": "placeholder", "sql": _param_model(rng, PH_EXAMPLES[style]),
+                "param_style": style, "context": ctx, "rules": rules, "shape": "struct"}
+    parts = [draw(st.sampled_from(PH_EXAMPLES[style])) if draw(st.integers(0, 2)) == 0
+             else draw(st.sampled_from(_FIX_PIECES)) for _ in range(draw(st.integers(2, 10)))]
+    return {"dialect": "ansi", "templater": "placeholder", "sql": "".join(parts), "param_style": style, "context": ctx,
+            "rules": rules, "shape": "pieces"}
